@@ -36,6 +36,7 @@ import (
 	"github.com/AliceO2Group/Control/core/task/channel"
 
 	"github.com/sirupsen/logrus"
+	"github.com/spf13/viper"
 
 	"verif/harness/internal/gen"
 	"verif/harness/internal/simcore"
@@ -472,6 +473,10 @@ type roleJ struct {
 	Connect []outJ  `json:"connect,omitempty"`
 	Task    *taskJ  `json:"task,omitempty"` // nil: aggregator
 	Roles   []roleJ `json:"roles,omitempty"`
+	// Iter: the role is the template of an iterator (`for:` block, variable "it"); one copy
+	// named <name>-<value> per value.  Connect targets and bind aliases at or below it may be
+	// templates: {{ it }}, {{ Parent().Path }}, {{ Up(n).Path }}.
+	Iter []string `json:"iter,omitempty"`
 }
 
 type taskJ struct {
@@ -484,6 +489,7 @@ type taskJ struct {
 type envInput struct {
 	Root  roleJ  `json:"root"`
 	Label string `json:"label,omitempty"`
+	Seq   bool   `json:"seq,omitempty"` // template / iterator processing sequential instead of concurrent
 }
 
 // one flattened task role
@@ -496,22 +502,75 @@ type flatTask struct {
 
 func (f flatTask) path() string { return strings.Join(f.Names, ".") }
 
+var upRe = regexp.MustCompile(`\{\{\s*Up\((\d+)\)\.Path\s*\}\}`)
+var parentRe = regexp.MustCompile(`\{\{\s*Parent\(\)\.Path\s*\}\}`)
+var itRe = regexp.MustCompile(`\{\{\s*it\s*\}\}`)
+
+// resolveTpl is the harness's own reading of the template fragment used in generated
+// declarations: names = path of the role that carries the declaration (root first).
+func resolveTpl(t string, names []string, it string) string {
+	if !strings.Contains(t, "{{") {
+		return t
+	}
+	t = itRe.ReplaceAllString(t, it)
+	t = parentRe.ReplaceAllStringFunc(t, func(string) string {
+		if len(names) < 2 {
+			return ""
+		}
+		return strings.Join(names[:len(names)-1], ".")
+	})
+	t = upRe.ReplaceAllStringFunc(t, func(m string) string {
+		var n int
+		fmt.Sscanf(upRe.FindStringSubmatch(m)[1], "%d", &n)
+		if n <= 0 || n >= len(names) {
+			return ""
+		}
+		return strings.Join(names[:len(names)-n], ".")
+	})
+	return t
+}
+
+// flatten lists the task roles of the workflow with the declarations along their paths, every
+// iterator expanded and every template resolved per expansion (independently of the core).
 func flatten(root *roleJ) []flatTask {
 	var out []flatTask
-	var rec func(r *roleJ, names []string, binds [][]inJ, conns [][]outJ)
-	rec = func(r *roleJ, names []string, binds [][]inJ, conns [][]outJ) {
-		names = append(append([]string(nil), names...), r.Name)
-		binds = append([][]inJ{r.Bind}, binds...)
-		conns = append([][]outJ{r.Connect}, conns...)
+	var rec func(r *roleJ, name string, names []string, binds [][]inJ, conns [][]outJ, it string)
+	rec = func(r *roleJ, name string, names []string, binds [][]inJ, conns [][]outJ, it string) {
+		names = append(append([]string(nil), names...), name)
+		bind := make([]inJ, len(r.Bind))
+		for i, c := range r.Bind {
+			c.Global = resolveTpl(c.Global, names, it)
+			bind[i] = c
+		}
+		conn := make([]outJ, len(r.Connect))
+		for i, c := range r.Connect {
+			c.Target = resolveTpl(c.Target, names, it)
+			conn[i] = c
+		}
+		if r.Bind == nil {
+			bind = nil
+		}
+		if r.Connect == nil {
+			conn = nil
+		}
+		binds = append([][]inJ{bind}, binds...)
+		conns = append([][]outJ{conn}, conns...)
 		if r.Task != nil {
 			out = append(out, flatTask{Names: names, Binds: binds, Conns: conns, T: r.Task})
 			return
 		}
 		for i := range r.Roles {
-			rec(&r.Roles[i], names, binds, conns)
+			c := &r.Roles[i]
+			if len(c.Iter) > 0 {
+				for _, v := range c.Iter {
+					rec(c, c.Name+"-"+v, names, binds, conns, v)
+				}
+				continue
+			}
+			rec(c, c.Name, names, binds, conns, it)
 		}
 	}
-	rec(root, nil, nil, nil)
+	rec(root, root.Name, nil, nil, nil, "")
 	return out
 }
 
@@ -572,8 +631,14 @@ func emitOut(b *strings.Builder, ind string, l []outJ) {
 }
 
 func emitRole(b *strings.Builder, ind string, r *roleJ, classOf map[*taskJ]string) {
-	b.WriteString(ind + "- name: " + yq(r.Name) + "\n")
 	in2 := ind + "  "
+	if len(r.Iter) > 0 {
+		vals, _ := json.Marshal(r.Iter)
+		b.WriteString(ind + "- name: " + yq(r.Name+"-{{ it }}") + "\n")
+		b.WriteString(in2 + "for:\n" + in2 + "  range: " + yq(string(vals)) + "\n" + in2 + "  var: it\n")
+	} else {
+		b.WriteString(ind + "- name: " + yq(r.Name) + "\n")
+	}
 	emitIn(b, in2, r.Bind)
 	emitOut(b, in2, r.Connect)
 	if r.Task != nil {
@@ -690,6 +755,9 @@ func (w *world) runEnvOnce(in envInput) (gen.Case, bool) {
 	fl := flatten(&in.Root)
 	classOf := map[*taskJ]string{}
 	for i := range fl {
+		if _, done := classOf[fl[i].T]; done {
+			continue // expansions of one iterator template share the class
+		}
 		name := fmt.Sprintf("k%dx%d", w.seq, i)
 		classOf[fl[i].T] = name
 		if err := os.WriteFile(filepath.Join(s.RepoDir, "tasks", name+".yaml"), []byte(classYAML(name, fl[i].T)), 0o644); err != nil {
@@ -734,6 +802,9 @@ func (w *world) runEnvOnce(in envInput) (gen.Case, bool) {
 			}
 		}
 	}()
+	for _, k := range []string{"concurrentWorkflowTemplateProcessing", "concurrentWorkflowTemplateIteratorProcessing", "concurrentIteratorRoleExpansion"} {
+		viper.Set(k, !in.Seq)
+	}
 	_, err := s.Envman.CreateEnvironment(wfName, map[string]string{}, false, envId, false)
 	close(doneCh)
 	calls := s.CallsSnapshot()[before:]
@@ -1129,6 +1200,112 @@ func genEnv(r *gen.Rand) envInput {
 	return envInput{Root: root}
 }
 
+// genIterEnv: workflows whose channels are declared at or below an iterator role, with
+// per-iteration connect targets and bind aliases; 1-3 iterations, sequential or concurrent
+// template processing.
+func genIterEnv(r *gen.Rand) envInput {
+	vals := [][]string{{"a", "b"}, {"a", "b", "c"}, {"x", "y"}, {"1", "2", "3"}, {"a"}}[r.Intn(5)]
+	mode := func() string { return r.Pick([]string{"direct", "fairmq", "fairmq"}) }
+	host := func() string {
+		if r.Chance(1, 2) {
+			return r.Pick(hostPool)
+		}
+		return ""
+	}
+	root := roleJ{Name: "w"}
+	plainIn := r.Chance(1, 2)
+	if plainIn {
+		t0 := roleJ{Name: "t0", Bind: []inJ{{Name: "in0", Tr: r.Pick(transports)}}, Task: &taskJ{Mode: mode(), Host: host()}}
+		if r.Chance(1, 2) {
+			// iteration-independent target into one expansion
+			t0.Connect = []outJ{{Name: "out0", Target: "w.g-" + vals[0] + ".r:in0"}}
+			if r.Chance(1, 3) {
+				t0.Connect = append(t0.Connect, outJ{Name: "out1", Target: "::ga-" + vals[len(vals)-1]})
+			}
+		}
+		root.Roles = append(root.Roles, t0)
+	}
+	if r.Chance(3, 4) {
+		// aggregator template: binder r, one or two connecting siblings
+		rb := roleJ{Name: "r", Task: &taskJ{Mode: mode(), Host: host()}}
+		rb.Bind = []inJ{{Name: "in0", Tr: r.Pick(transports), Global: "ga-{{ it }}"}}
+		if r.Chance(1, 4) {
+			rb.Bind[0].Global = ""
+		}
+		if r.Chance(1, 2) {
+			rb.Bind = append(rb.Bind, inJ{Name: "in1", Tr: r.Pick(transports)})
+		}
+		if r.Chance(1, 6) {
+			rb.Bind[0].Addr = "ipc"
+		}
+		tgt := func(ch string) string {
+			switch r.Intn(6) {
+			case 0:
+				return "{{ Up(1).Path }}.r:" + ch
+			case 1:
+				return "{{ Parent().Path }}.r:" + ch
+			case 2:
+				return "w.g-{{ it }}.r:" + ch
+			case 3:
+				return "{{ Up(2).Path }}.g-{{ it }}.r:" + ch
+			case 4:
+				if ch == "in0" && rb.Bind[0].Global != "" {
+					return "::ga-{{ it }}"
+				}
+				return "{{ Up(1).Path }}.r:" + ch
+			default:
+				if plainIn {
+					return "w.t0:in0" // the same for every iteration
+				}
+				return "{{ Parent().Path }}.r:" + ch
+			}
+		}
+		g := roleJ{Name: "g", Iter: vals, Roles: []roleJ{rb}}
+		for i, n := 0, r.Range(1, 2); i < n; i++ {
+			sc := roleJ{Name: fmt.Sprintf("s%d", i), Task: &taskJ{Mode: mode(), Host: host()}}
+			if rb.Bind[0].Addr == "ipc" {
+				sc.Task.Host, rb.Task.Host = "h1", "h1" // IPC is local
+			}
+			for k, m := 0, r.Range(1, 3); k < m; k++ {
+				ch := "in0"
+				if len(rb.Bind) > 1 && r.Chance(1, 3) {
+					ch = "in1"
+				}
+				sc.Connect = append(sc.Connect, outJ{Name: fmt.Sprintf("out%d", k), Tr: r.Pick(transports), Target: tgt(ch)})
+			}
+			if r.Chance(1, 5) {
+				sc.Bind = []inJ{{Name: "ctl"}}
+			}
+			g.Roles = append(g.Roles, sc)
+		}
+		if r.Chance(1, 4) {
+			// declared on the iterated aggregator itself, inherited by its task roles
+			g.Connect = []outJ{{Name: "mon", Target: "w.g-{{ it }}.r:in0"}}
+		}
+		if r.Chance(1, 2) {
+			root.Roles = append(root.Roles, g)
+		} else {
+			root.Roles = append([]roleJ{g}, root.Roles...)
+		}
+	} else {
+		// the iterated role is a task role
+		u := roleJ{Name: "u", Iter: vals, Task: &taskJ{Mode: mode(), Host: host()}}
+		u.Bind = []inJ{{Name: "in0", Tr: r.Pick(transports), Global: "gu-{{ it }}"}}
+		if plainIn {
+			u.Connect = []outJ{{Name: "out0", Target: "w.t0:in0"}}
+		}
+		if r.Chance(1, 2) {
+			u.Connect = append(u.Connect, outJ{Name: "out1", Target: "w.u-{{ it }}:in0"}) // its own inbound channel
+		}
+		v := roleJ{Name: "v", Task: &taskJ{Mode: mode(), Host: host()}}
+		for k, x := range vals {
+			v.Connect = append(v.Connect, outJ{Name: fmt.Sprintf("out%d", k), Target: r.Pick([]string{"w.u-" + x + ":in0", "::gu-" + x})})
+		}
+		root.Roles = append(root.Roles, u, v)
+	}
+	return envInput{Root: root, Seq: r.Chance(1, 3)}
+}
+
 // fixed workflows that run first: one per clause of the property and the witnesses of the
 // three repaired findings (regression cases)
 func corpus() []envInput {
@@ -1137,6 +1314,9 @@ func corpus() []envInput {
 	}
 	w := func(label string, roles ...roleJ) envInput {
 		return envInput{Label: label, Root: roleJ{Name: "w", Roles: roles}}
+	}
+	itw := func(label string, seq bool, roles ...roleJ) envInput {
+		return envInput{Label: label, Seq: seq, Root: roleJ{Name: "w", Roles: roles}}
 	}
 	return []envInput{
 		// former finding C13-a (repaired): an inbound channel with an explicit target is not
@@ -1175,6 +1355,24 @@ func corpus() []envInput {
 		w("alias-in-two-tasks",
 			t("b", "direct", "h1", []inJ{{Name: "in0", Global: "ga"}}, nil, nil, nil),
 			t("c", "direct", "h2", []inJ{{Name: "in0", Global: "ga"}}, nil, nil, nil)),
+		// iterators: every expansion has its own declarations; per-iteration targets and aliases
+		// ({{ Up(1).Path }}, {{ Parent().Path }}, {{ it }}) resolve to the expansion's own peer
+		itw("iterator-up-path", false,
+			roleJ{Name: "g", Iter: []string{"a", "b", "c"}, Roles: []roleJ{
+				t("r", "direct", "h1", []inJ{{Name: "in0"}}, nil, nil, nil),
+				t("s", "fairmq", "h2", nil, []outJ{{Name: "out0", Target: "{{ Up(1).Path }}.r:in0"}}, nil, nil)}}),
+		itw("iterator-parent-it-alias", true,
+			roleJ{Name: "g", Iter: []string{"a", "b"}, Roles: []roleJ{
+				t("r", "direct", "", []inJ{{Name: "in0", Global: "ga-{{ it }}"}, {Name: "in1", Tr: "zeromq"}}, nil, nil, nil),
+				t("s", "fairmq", "", nil, []outJ{{Name: "out0", Target: "{{ Parent().Path }}.r:in0"}, {Name: "out1", Target: "::ga-{{ it }}"},
+					{Name: "out2", Target: "w.g-{{ it }}.r:in1"}}, nil, nil)}}),
+		itw("iterator-task-template", false,
+			t("t0", "direct", "h3", []inJ{{Name: "in0"}}, []outJ{{Name: "out0", Target: "::gu-b"}, {Name: "out1", Target: "w.u-a:in0"}}, nil, nil),
+			func() roleJ {
+				r := t("u", "fairmq", "", []inJ{{Name: "in0", Global: "gu-{{ it }}"}}, []outJ{{Name: "out0", Target: "w.t0:in0"}}, nil, nil)
+				r.Iter = []string{"a", "b"}
+				return r
+			}()),
 		// target that names nothing: rejected
 		w("unmatched",
 			t("b", "direct", "h1", []inJ{{Name: "in0"}}, nil, nil, nil),
@@ -1386,7 +1584,11 @@ func main() {
 			jobs = append(jobs, job{pure: &c})
 		}
 		for i := 0; i < nEnv; i++ {
-			addEnv(genEnv(rEnv))
+			if i%4 == 3 {
+				addEnv(genIterEnv(rEnv))
+			} else {
+				addEnv(genEnv(rEnv))
+			}
 		}
 	}
 	var envIns []envInput
